@@ -201,6 +201,17 @@ def run_property(prop, tier="quick", seed=0, replay=None):
                              "documented semantics of rayon/scc/flate2/bio/memmap2/clap as used",
                              "spec tables transcribed from properties.jsonl", "python3 stdlib"],
             "notes": ctx.notes,
+            "normal_forms": {
+                "explanation": "load-time rewrites applied to the typed tree before the rules ran (DESIGN 10.11/10.13); "
+                               "all empty / zero on the pinned tree",
+                "helpers_expanded": sorted(set("%s <- %s" % (c, h) for c, h in getattr(prog, "inlined", [])))[:40],
+                "helpers_left_as_calls": [list(x) for x in getattr(prog, "inline_kept", [])][:20],
+                "moved_items": getattr(prog, "aliases", {}),
+                "renamed_functions": getattr(prog, "renamed", {}),
+                "absorbed_anchors": getattr(prog, "absorbed_into", {}),
+                "regrouped_fields": getattr(prog, "field_groups", {}),
+                "methods_restored": [list(x) for x in getattr(prog, "arg_fields", [])],
+            },
             "thorough": thorough,
         },
         "assumptions": getattr(mod, "ASSUMPTIONS", []),
